@@ -56,7 +56,7 @@ Definition c11_case (ks : list bcmd) (rev rf recur : bool) (greedy dce : bool) (
   let cf := {| walk_reverse := rev; walk_regions_first := rf; apply_recursively := recur |} in
   let m := if greedy then MGreedy cir_sem dce (map script tbs)
            else MSingle cir_sem (script (hd [] tbs)) in
-  match rewrite_region cir_sem n fuel cf m (pick_seq sq) (build ks) with
+  match rewrite_region cir_sem true n fuel cf m (pick_seq sq) (build ks) with
   | None => I (-2)%Z
   | Some (s, ret) =>
       L [sB ret; L (map (fun oc => sN (fst oc)) (ws_inv cir_sem s));
@@ -72,7 +72,7 @@ Fixpoint direct_run (tms : list tmpl) (c : cir) (r : rw) (ev : list (event * cir
   | tm :: rest =>
       match resolve c r tm with
       | None => direct_run rest c r ev (bits ++ [false])
-      | Some a => let '(c1, r1, t) := exec cir_sem a c r in direct_run rest c1 r1 (ev ++ t) (bits ++ [true])
+      | Some a => let '(c1, r1, t) := exec cir_sem true a c r in direct_run rest c1 r1 (ev ++ t) (bits ++ [true])
       end
   end.
 Definition c11_direct (ks : list bcmd) (cur : op) (tms : list tmpl) : sx :=
